@@ -686,9 +686,11 @@ class TorchBackendProvider(BackendProvider):
             return a.pow(b)
         # For numpy arrays or scalars
         a_val = float(a) if isinstance(a, (int, numpy.integer)) else a
-        if isinstance(b, torch.Tensor) and b.ndim > 0 and isinstance(a_val, float):
-            # number ^ tensor stays a tensor (a NumPy array here could not be combined with tensors afterwards)
-            return torch.pow(torch.tensor(a_val, device=b.device), b)
+        if isinstance(b, torch.Tensor) and isinstance(a_val, float):
+            # number ^ tensor stays a tensor: a NumPy result could not be combined with tensors afterwards, and
+            # taking the number out of a 0-dimensional exponent would cut it off the autograd graph
+            dtype = b.dtype if b.is_floating_point() else torch.get_default_dtype()
+            return torch.pow(torch.tensor(a_val, dtype=dtype, device=b.device), b)
         b_val = b.item() if isinstance(b, torch.Tensor) and b.ndim == 0 else (b.cpu().numpy() if isinstance(b, torch.Tensor) else b)
         return numpy.power(a_val, b_val)
 
